@@ -208,7 +208,7 @@ def run(tier: str, replay: str | None = None) -> int:
     backends.setup_determinism()
     optuna.logging.set_verbosity(optuna.logging.ERROR)
     ctx = Ctx(PID, tier, "model_checking")
-    depth, max_trials = (7, 3) if tier == "quick" else (10, 3)
+    depth, max_trials = (7, 3) if tier == "quick" else (9, 3)
     pre = prefixes(4, max_trials)
     tasks = [(tuple(p), depth, max_trials) for p in pre]
     # shallow part (depth < 4) once
@@ -225,7 +225,7 @@ def run(tier: str, replay: str | None = None) -> int:
     ]
     return ctx.finish(
         exhaustive=True,
-        rule=f"breadth-first over events enqueue/ask/suggest(4 params, 2 sharing a name)/tell(C,P,F)/calc up to depth {depth} with at most {max_trials} trials (thorough: also 4 trials to depth 8), de-duplicated on (study, calculator internals)",
+        rule=f"breadth-first over events enqueue/ask/suggest(4 params, 2 sharing a name)/tell(C,P,F)/calc up to depth {depth} with at most {max_trials} trials (thorough: depth 9; also 4 trials to depth 8), de-duplicated on (study, calculator internals)",
     )
 
 
